@@ -10,6 +10,10 @@ CONSTANTS
   MaxCompPair = 0
   WordSample = {}
   MaxWord = 0
+  SliceDefSample = {}
+  MaxSliceDef = 0
+  SliceSample = {}
+  MaxSlice = 0
 INVARIANT Emit
 POSTCONDITION Consumed
 CHECK_DEADLOCK FALSE
